@@ -36,6 +36,9 @@ KNOWN = [
     {"id": "C09-retcopy-zero-oob", "property": "C09",
      "what": "RETURNDATACOPY with size 0 and offset > RETURNDATASIZE does not halt (`if size:` guards the bound check)",
      "match": {"defect_contains": "retcopy-zero"}},
+    {"id": "C09-depth-limit-accountless-call", "property": "C09",
+     "what": "a CALL of an address without account executed at call depth 1024 succeeds (call_unknown pushes 1 and transfers the value without any depth check; the depth guard only runs at the first step of a sub-Exec); derived from the proof obligation, reproduced with 1023 nested self-calls (thorough tier)",
+     "match": {"defect_contains": "depth-nocode"}},
 ]
 
 ASSUMPTIONS = [
@@ -90,12 +93,56 @@ CORPUS = [
       ["call", "CALL", c09_lib.THIS, ["c", 2], 32, ["sstore", ["c", 3], ["c", 1], ["observe", 3, ["end", "return", 2]]], ["observe", 0, ["end", "return", 3]]],
       ["create", ["c", 1], ["sstore", ["c", 0], ["c", 7], ["end", "revert", 0]],
        ["create", ["a", 1], ["sstore", ["c", 0], ["c", 8], ["end", "return", 0]], ["observe", 0, ["end", "return", 4]]]]], False),
+    # the static flag is inherited: STATICCALL -> CALL (no value) -> SSTORE / TSTORE / LOG / CREATE must fail
+    (["call", "STATICCALL", 0x1000, ["c", 0], 320,
+      ["call", "CALL", 0x2000, ["c", 0], 32, ["sstore", ["c", 0], ["c", 1], ["end", "return", 2]],
+       ["call", "DELEGATECALL", 0x3000, ["c", 0], 32, ["log", ["end", "return", 3]],
+        ["call", "CALLCODE", 0x2000, ["c", 0], 32, ["create", ["c", 0], ["end", "return", 0], ["end", "return", 4]], ["end", "return", 5]]]],
+      ["observe", 0, ["end", "return", 6]]], False),
+    # context per call scheme: DELEGATECALL keeps sender and value, CALLCODE keeps the address; both write the caller's storage
+    (["call", "CALL", 0x1000, ["c", 3], 1088,
+      ["call", "DELEGATECALL", 0x2000, ["c", 0], 320, ["observe", 0, ["sstore", ["c", 1], ["c", 5], ["end", "return", 2]]],
+       ["call", "CALLCODE", 0x3000, ["c", 2], 320, ["observe", 1, ["sstore", ["c", 2], ["c", 6], ["end", "return", 3]]],
+        ["observe", 1, ["end", "return", 4]]]],
+      ["observe", 0, ["end", "return", 5]]], False),
+    # exact-balance boundary: value == balance must succeed, value == balance + 1 must fail
+    (["call", "CALL", 0x1000, ["a", 0], 32, ["observe", 0, ["end", "return", 2]],
+      ["create", ["a", 1], ["end", "return", 0], ["observe", 0, ["end", "return", 3]]]], False),
     # top-level static frame
     (["observe", 0, ["call", "CALL", 0x1000, ["c", 0], 32, ["sstore", ["c", 0], ["c", 1], ["end", "return", 2]], ["observe", 0, ["end", "return", 3]]]], True),
     # calls of an address without account, with value
     (["call", "CALL", c09_lib.NOACC, ["a", 0], 32, ["end", "stop", 0],
       ["call", "STATICCALL", c09_lib.NOACC, ["c", 0], 0, ["end", "stop", 0], ["observe", 0, ["end", "return", 3]]]], False),
 ]
+
+
+def depth_case(_task):
+    """the fourth marked situation needs 1024 nested frames: a contract that calls an
+    account-less address, then itself; the deepest frame reports the first status word"""
+    import sys
+
+    from harness import asm, engine, l2tie, refevm, scenarios
+
+    sys.setrecursionlimit(1000000)
+    a, noacc, gas = 0x1000, c09_lib.NOACC, 100000
+    a_code = asm.assemble([
+        "PUSH0", "PUSH0", "PUSH0", "PUSH0", "PUSH0", ("push", noacc), ("push", gas), "CALL",
+        ("push", 32), "PUSH0", "PUSH0", "PUSH0", "PUSH0", ("push", a), ("push", gas), "CALL",
+        ("ref", "done"), "JUMPI",
+        ("push", 2), "ADD", "PUSH0", "MSTORE", ("push", 32), "PUSH0", "RETURN",
+        ("label", "done"), "POP", ("push", 32), "PUSH0", "RETURN"])
+    top = asm.assemble([("push", 32), "PUSH0", "PUSH0", "PUSH0", "PUSH0", ("push", a), ("push", gas), "CALL", "POP", ("push", 32), "PUSH0", "RETURN"])
+    scn = {"profile": "depth", "accounts": {scenarios.THIS: {"code": top}, a: {"code": a_code}}, "this": scenarios.THIS,
+           "calldata": [("c", bytes(4))], "static": False, "options": {}}
+    inp = {"caller": 0xBEEF, "origin": 0xBEEF, "value": 0, "args": {}, "balances": {}}
+    ref = refevm.run_many([l2tie.ref_case(scn, inp)], fuel=200000)[0]
+    paths, flags = engine.run_scenario(scn)
+    out = {"reference": ref["status"] + ":" + ref.get("ret", b"").hex(), "halmos": [], "programs": {"top": top.hex(), hex(a): a_code.hex()}, "flags": {k: v for k, v in flags.items() if k != "output"}}
+    for p in paths:
+        ok, ev = p.holds(inp)
+        if ok:
+            out["halmos"].append(p.kind + ":" + (p.ret_bytes(ev).hex() if p.kind in ("ok", "revert") else ""))
+    return out
 
 
 def gen_trees(tier, r):
@@ -183,6 +230,16 @@ def run(rep, tier):
             rep.fail("broken-tie", f"halmos and the call model disagree on call tree {json.dumps(tree)[:300]} (static={static}) input {ascii(f['input'])[:200]}: {f['what'][:300]}", case={**case, "failure": f})
         for f in res["spec_vs_ref"][:3]:
             rep.fail("broken-tie", f"call-tree spec and reference interpreter disagree (harness compiler or spec wrong) on {json.dumps(tree)[:300]}: {f['what'][:300]}", case={**case, "failure": f})
+    if tier == "thorough":
+        (status, res), = pool.run_tasks(depth_case, [0], timeout=600)
+        rep.count("depth_limit_case", status)
+        if status == "ok":
+            rep.case({"depth_limit_case": res["programs"]}, nontrivial=True)
+            if res["halmos"] != [res["reference"]]:
+                rep.fail("failing-input", f"C09: a CALL of an account-less address at depth 1024: halmos reports {res['halmos']}, the EVM {res['reference']} (programs {res['programs']})",
+                         case={"depth_limit_case": res}, sig={"defect": "depth-nocode", "what": "return data"})
+        elif status == "exc":
+            rep.fail("broken-tie", f"depth-limit case raised: {str(res)[-400:]}", case={})
     rep.coverage["path_input_evaluations"] = n_eval
     rep.coverage["traces_validated_against_impl"] = n_model
     return finish(rep, tier)
